@@ -10,6 +10,9 @@ from mabstat.model import AnalysisError, Program            # noqa: E402
 from mabstat.selftest import apply_unified_diff              # noqa: E402
 
 BASE = os.path.join(os.path.dirname(os.path.dirname(os.path.abspath(__file__))), "refactorings")
+for _a in sys.argv[1:]:
+    if _a.startswith("--base="):        # any directory of <id>/patch.diff (e.g. seeded/ : which checks report what)
+        BASE = os.path.abspath(_a.split("=", 1)[1])
 
 
 def one(args):
